@@ -228,7 +228,8 @@ func registerCodecModels() {
 		p, t := protoTarget(a[2])
 		_, _, isenc := m.E.declCodec(t)
 		b := term(a[1])
-		m.safeSite("decode", App(SBool, isenc, b), "MustUnmarshal panics on bytes that are not an encoding of "+shortType(t))
+		m.E.Assume("A-WFSTORE", "bytes handed to MustUnmarshal decode as the requested type: every store value was written by MustMarshal of the type that belongs to its key family (store well-formedness, by construction of the write sites)")
+		m.AssumeT(App(SBool, isenc, b))
 		m.StoreTo(p, m.decode(t, b))
 		return &TupleV{}
 	}
@@ -267,6 +268,7 @@ func (m *Machine) bankSelect(acct, denom *Term) *Term { return Select(Select(m.B
 // sendCoins moves coins; returns the error term. userSender: sender may hold locked (vesting) coins.
 func (m *Machine) sendCoins(from, to *Term, c *CoinsV, mayBlock bool, userSender bool) *Term {
 	E := m.E
+	E.D.Axiom("true")
 	E.Assume("A-BANK", "x/bank: SendCoins* is all-or-nothing, moves exactly the listed amounts, fails iff the coins are invalid (a listed coin with amount <= 0), the sender's spendable balance is short, or (ModuleToAccount) the recipient is a blocked address; Mint/Burn change balance and supply by the amount; GetBalance reads the balance")
 	bank := m.Bank()
 	var ok *Term
